@@ -186,7 +186,7 @@ CHECKS = {
         "at that point, C01_step_all); (2) print's formatting for all format strings and argument lists; (3) requests on an "
         "exhausted node write nothing. Tie to the code: per request, the text the implementation writes is compared with what "
         "the extracted reference searches write between the corresponding answers, and model-vs-implementation correspondence "
-        "on the output of every operation.", ref="7/C04",
+        "on the output of every operation. A law of the reference for cut-free programs (Properties/C04laws.v, Proofs/OutputLaw.v): a built-in that stands after a goal g1 is executed once for each answer of g1, in the order in which g1 delivers them, and its text is appended at that moment, before g1 is resumed (C04_output_once_per_answer).", ref="7/C04",
    technique="Coq refinement proof (output of the search, all programs) and proof of print formatting (Properties/C04.v) + extracted reference semantics as per-request output oracle + model-vs-implementation correspondence"),
  "C05": dict(
    text="Machine-checked for ALL node kinds (calls, conjunctions, disjunctions, not, time, built-ins, with or without cut flags), "
